@@ -82,7 +82,10 @@ def _ranked(grid: np.ndarray, v: float):
     out = get_closest(grid, np.array([v]))[0]
     ds = [abs(Fraction(float(x)) - Fraction(float(v))) for x in grid]
     dmin = min(ds)
-    tol = dmin * Fraction(1, 10**12) + Fraction(1, 10**300)
+    if v <= grid[0] or v >= grid[-1]:
+        tol = Fraction(0)        # outside the range the end element is the nearest one, however far the value lies: no rounding excuse
+    else:
+        tol = dmin * Fraction(1, 10**12) + Fraction(1, 10**300)
     rank = [0 if d <= dmin + tol else 1 for d in ds]
     pos = [i for i, x in enumerate(grid) if x == out]
     return {"op": "ranked", "n": len(grid), "oi": (pos[0] + 1) if pos else 0, "rank": rank,
@@ -190,7 +193,7 @@ def build_traces(tier: str, rng: random.Random):
         n = rng.choice([2, 3, 10, 57, 200])
         grid = np.arange(lo, lo + prec * (n - 1) + 1e-7, prec)
         i = rng.randrange(len(grid))
-        kind = rng.choice(["mid", "in", "elem", "below", "above", "ulp"])
+        kind = rng.choice(["mid", "in", "elem", "below", "above", "ulp", "far"])
         if kind == "mid" and i + 1 < len(grid):
             v = (grid[i] + grid[i + 1]) / 2
         elif kind == "in":
@@ -201,6 +204,9 @@ def build_traces(tier: str, rng: random.Random):
             v = grid[0] - rng.choice([1e-9, 0.5, 1e6])
         elif kind == "above":
             v = grid[-1] + rng.choice([1e-9, 0.5, 1e6])
+        elif kind == "far":
+            # so far out that the grid spacing is absorbed by rounding: all distances look equal, the end element is still nearest
+            v = rng.choice([-1.0, 1.0]) * rng.choice([1e17, 1e19, 1e300, float(np.finfo(float).max), 2.0**70])
         else:
             v = float(np.nextafter(grid[i], rng.choice([-np.inf, np.inf])))
         traces.append([_ranked(grid, float(v))])
